@@ -269,11 +269,17 @@ def _rules(fx, rep, groups):
                     continue
                 # a path that is also taken for operands with equal x (P + (-P)) must produce the identity there
                 same_x = (sx_diff, sx_diff.neg())
+                only_same_x = False
                 for v in vanish:
                     if nm != 'double' and v in same_x:
+                        only_same_x = True
                         r_ = vanishes_under(Z3, v)
                         if r_ is not True:
                             bad.append('the formula path is taken for operands with the same x (P + (-P)) but Z3 does not vanish there: the result is not the identity')
+                if only_same_x:
+                    # a path taken only for operands with the same x: the chord law does not apply (its denominator is
+                    # zero); which of double / identity is due is the skeleton rule's business, the identity is Z3 = 0
+                    continue
                 if not okx:
                     bad.append('X3/Z3^2 differs from lambda^2 - x1 - x2' + (' (under %s)' % sorted(sub) if sub else ''))
                 if not oky:
